@@ -295,8 +295,9 @@ class C02(Suite):
             c = pick_name()
             if r < 0.7:
                 return ["id", c]
-            if r < 0.88 or not write or c >= FRESH_BASE:
+            if r < (0.88 if write else 0.93) or c >= FRESH_BASE:
                 return ["view", c]
+            # a Graph object of another store: merged by add/addN/graph(), merely a name for reads and remove
             return ["foreign", c, rng.sample(vocab, rng.choice([0, 1, 1, 2]))]
 
         def ctxarg(write, p_triple=0.25):
@@ -490,7 +491,6 @@ TRUSTED = [
 ASSUMPTIONS = [
     "store is rdflib.plugins.stores.memory.Memory; one front-end object per history plus Graph(store, name) views",
     "graph names are URIRef/BNode with non-empty strings; the Dataset/ConjunctiveGraph object itself is never passed as a graph",
-    "graph objects backed by another store are given to write operations only (wf); reads that receive one are C13's",
     "Dataset.graphs(triple) / contexts(triple) with a triple argument are not modelled",
 ]
 RULE = ("histories of 2-12 operations (add / addN / remove by triple, quad or pattern / graph() / remove_graph() / "
